@@ -90,7 +90,10 @@ def long_file(rng):
     for toks in body[:k]:
         lines += wrap_input(toks, rng, width=rng.choice([60, 76, 79]))
     for i, nm in enumerate(names):
-        if rng.random() < 0.4:
+        if rng.random() < 0.03:
+            # displacement parameters below the written precision of five decimals
+            u = ['0.05000', '0.000004', '0.000003', '0.000004', '-0.000004', '0.000004']
+        elif rng.random() < 0.4:
             u = ['%.5f' % rng.uniform(0.01, 0.09) for _ in range(3)] + ['%.5f' % rng.uniform(-0.01, 0.01) for _ in range(3)]
         else:
             u = ['%.5f' % rng.uniform(0.01, 0.09)]
@@ -171,9 +174,34 @@ def check_written(ctx, shx, out, case):
         common.add_violation(ctx, 'joining the continuation lines of the written file does not restore the token sequence of the instruction',
                              dict(case, index=k), exp[k] if k < len(exp) else None, got[k] if k < len(got) else None)
         return
+    def isnum(t):
+        try:
+            float(t)
+            return True
+        except ValueError:
+            return False
+    known = set(k[:4] for k in rf.SYNTAX) | {'TITL', 'REM', 'END', 'HKLF', 'MOLE', 'HOPE', 'REST', 'CHAN', 'FLAP', 'RNUM', 'SOCC', 'RANG', 'TANG', 'ADDA', 'STAG', 'NOTR',
+                                               'BEDE', 'LONE', 'TIME', 'FRAG', 'FEND', 'L.S.', 'CGLS', 'RESI', 'PART', 'AFIX', 'SFAC', 'UNIT', 'FVAR', 'CELL', 'ZERR', 'LATT',
+                                               'SYMM', 'NEUT', 'DISP', 'LAUE', 'ANSC'}
+    source_lines = set(case.get('text', '').split('\n'))
+    for l in phys:
+        if not l.strip() or l[0] == ' ':
+            continue
+        t = l.split()
+        kw = t[0].split('_')[0].upper()[:4]
+        atomlike = len(t) >= 5 and all(isnum(x) for x in t[1:5]) and not isnum(t[0])
+        if kw not in known and not t[0].startswith('+') and not atomlike and l not in source_lines and not kw.startswith('REM'):
+            common.add_violation(ctx, 'a written line starting in column 1 is neither an instruction nor an atom (and was not in the input): text that was inserted as an indented comment?',
+                                 dict(case, line=l), 'instruction, atom, comment or continuation', l[:60])
+            return
     for toks in got:
         if not toks:
             continue
+        if toks[0].upper() == 'SFAC' and len(toks) > 1 and any(isnum(x) for x in toks[1:]):
+            # the explicit form is one instruction: element + 14 numbers
+            if isnum(toks[1]) or len(toks) != 16:
+                common.add_violation(ctx, 'an explicit SFAC instruction is not written as one instruction of an element and 14 numbers', case, 'SFAC E a1 b1 ... wt (16 tokens)', toks)
+                return
         t0 = toks[0]
         try:
             float(t0)
